@@ -5,7 +5,7 @@ from ..common import EXACT_EMBS, DEC_EMBS, unfl, run_driver_parallel
 RULE = ("M: GridLandscape.tla -- compute_landscape as a machine (SnapAll, one AddRamp per bar, SortColumns, Assemble) for every multiset "
         "of <=MaxBars bars with arbitrary off-grid integer endpoints on grids N x S; invariants HalfStep, ExactOnGrid, SnapWithinHalf, "
         "AssembleIsKth. R/V: seeded diagrams (off-grid endpoints, exact mid-point ties, many overlapping bars, several degrees, infinite bars, "
-        "grids wider than the diagram, num_steps 2..60) through PersLandscapeApprox, vectorize(PersLandscapeExact), "
+        "grids wider than the diagram, num_steps 2..60; integer-valued diagrams also as integer-dtype arrays, incl. on grids with fractional nodes) through PersLandscapeApprox, vectorize(PersLandscapeExact), "
         "PersistenceLandscaper.fit_transform (flattened or not) and death_vector; TraceGrid.tla decides HalfStep / ExactOnGrid / vectorize = "
         "true landscape / transformer = approx values / death vector sorted with the same multiset; algorithm layer = AlgVals. "
         "Non-trivial = >=2 bars, some endpoint off the grid; distinct = (bars, grid, embedding).")
@@ -19,6 +19,11 @@ def gen_case(rng, quick):
     if even and s % 2:
         s *= 2
     a = rng.choice([0, 0, 2, -4, 10])
+    # mult4: every bar endpoint a multiple of 4 ticks while the grid step is not -- under the embedding k/4-3 the diagram is integer-valued
+    # (and is then handed over as an INTEGER-dtype array) on a grid with fractional nodes
+    mult4 = rng.random() < 0.3
+    if mult4:
+        a = rng.choice([0, 4, -4])
     top = (n - 1) * s
     nb = rng.randint(1, 6 if rng.random() < 0.8 else 12)
     lo, hi = (0, top) if rng.random() < 0.6 else (min(top, s), max(min(top, s), top - s))  # grid strictly wider than the diagram
@@ -31,6 +36,8 @@ def gen_case(rng, quick):
             b, d = b - b % 2, d - d % 2
         if rng.random() < 0.3:   # exact mid-point ties and on-grid endpoints
             b = (b // s) * s + (s // 2 if s % 2 == 0 and rng.random() < 0.5 else 0)
+        if mult4:
+            b, d = b - b % 4, d - d % 4
         if b < d and d <= top and b >= 0:
             bars.append([a + b, a + d, 1])
     if not bars:
@@ -62,7 +69,7 @@ def build_jobs(ctx, gcs, embs):
         opts = [trb] + (["stop"] * 2 if minb_ok else []) + (["start"] * 2 if maxd_ok else [])
         trb = rng.choice(opts)
         jobs.append(dict(dgms=fl_dgms, hom_deg=hom, n=gc["n"], start=e.f(gc["a"]), stop=e.f(gc["a"] + (gc["n"] - 1) * gc["s"]),
-                         explicit=explicit, vec=vec, tr=tr, dv=bool(dv), trb=trb))
+                         explicit=explicit, vec=vec, tr=tr, dv=bool(dv), trb=trb, intdtype=int(rng.random() < 0.6)))
         skels.append(dict(dgms=dg, hom_deg=hom, a=gc["a"], n=gc["n"], s=gc["s"], exactemb=int(e.exact)))
     return jobs, skels
 
